@@ -393,7 +393,7 @@ def strat_types(draw):
     if draw(st.integers(0, 9)) == 0:
         body["raise"] = True
     return {
-        "deco": "check_types", "bare": draw(st.booleans()),
+        "postponed": draw(st.integers(0, 2)) == 0, "deco": "check_types", "bare": draw(st.booleans()),
         "fn": {"kind": kind, "async": is_async, "params": params, "ret_ann": ret_ann, "body": body},
         "inputs": [], "outs": [], "out_form": "list", "stack": None,
         "opts": draw(opts_strategy()),
